@@ -25,9 +25,18 @@ def call_partition(n, mat, mode, scale=1, junk=0):
         C[n, :] = junk
         C[:, n] = junk
     e = {"ev": "optimalPartition", "n": n, "c": mat, "mode": mode, "raised": False, "res": []}
+    pristine = C.copy()
+    # history (every other call): the SAME array was partitioned just before in the other direction (both directions on one
+    # matrix is ordinary use); the matrix belongs to the caller and must come back unchanged
+    again = (n + sum(mat[0]) + mode) % 2 == 0
     try:
         with core.quiet():
+            if again:
+                e["hist"] = "same array partitioned before in the other direction"
+                optimalPartition(C, 1 - mode, verbose=False)
             r = optimalPartition(C, mode, verbose=False)
+        if not (C == pristine).all():
+            raise ValueError("the caller's cost matrix was modified")
         e["res"] = [int(v) for v in r]
     except (Exception, SystemExit) as ex:
         e["raised"] = True
